@@ -35,11 +35,11 @@ TAGS = {
 }
 
 
-def build_v3(threads, chunks, blocks, filler=b'stackshot-junk', gap=b'', aligned=True, chunk_gaps=None):
+def build_v3(threads, chunks, blocks, filler=b'stackshot-junk', gap=b'', aligned=True, chunk_gaps=None, flags=0):
     """threads: [(tid, pid, name)]; chunks: [[64-byte records]] (>= 1 chunk); blocks: [(kind, payload bytes)]"""
     import plistlib
     cpu = plistlib.dumps({'cpu': 1}, fmt=plistlib.FMT_BINARY)
-    hdr = struct.pack('<IIQIIQQIIIII', 0x55aa0300, 0, 0, 125, 3, 1000, 1600000000, 0, 0, 0, 0, 0x8002)
+    hdr = struct.pack('<IIQIIQQIIIII', 0x55aa0300, 0, 0, 125, 3, 1000, 1600000000, 0, 0, 0, flags, 0x8002)
     out = b'\x00\x03\xaa\x55' + hdr + struct.pack('<Q', len(cpu)) + cpu
     out += bytes((-(len(out) - 4)) % 8)
     out += bytes(4)
